@@ -510,7 +510,7 @@ MUTANTS += [
 ]
 ASSUMPTIONS = [
     "C15: pool shapes are a finite family (<= 2 cells from one or two identically named layers, sharing a neuron or not, <= 3 monitor names per cell, shared / tag-distinct / unique / alias-attribute requests); per-operation clauses are proved for every member with symbolic layer modes and both trainer modes, not for pools of arbitrary size",
-    "C15: the step from per-operation preservation of Inv to arbitrary operation sequences is the representation-invariant induction (stated, not mechanised); longer real sequences are run by the bounded stand-in",
+    "C15: the step from per-operation preservation of Inv to arbitrary operation sequences is the representation-invariant induction (generic Lean lemma invariant_fold, lean/Induction.lean); longer real sequences are run by the bounded stand-in",
     "C15: garbage collection is not modelled: WeakValueDictionary entries are treated as live while referenced from a pool (drop-last-reference-and-collect sequences: bounded stand-in only)",
     "C15: generator functions and generator expressions are evaluated eagerly (finite, no interleaved side effects)",
     "C15: components (connections, neuron, reducers, updaters) are stubs: the value handed to a reducer is compared with the uninterpreted state of the observed component at the current step",
